@@ -587,7 +587,7 @@ fn sub_families(thorough: bool) -> Vec<SubB> {
             SubB { n: 1, two_pos: true, ndang: 2, all_perms: true, idsets: vec![0, 1, 2], starts: st_full.clone(), rots: (0..KINDS).collect(), trailers: vec![0, 1, 2, 3], bms: vec![0, 1] },
             SubB { n: 2, two_pos: true, ndang: 2, all_perms: true, idsets: vec![0, 1, 2], starts: st_full.clone(), rots: (0..KINDS).collect(), trailers: vec![0, 1, 2, 3], bms: vec![0, 1] },
             SubB { n: 3, two_pos: false, ndang: 2, all_perms: true, idsets: vec![0, 1, 2], starts: st_full.clone(), rots: (0..KINDS).collect(), trailers: vec![0, 1, 2, 3], bms: vec![0, 1] },
-            SubB { n: 3, two_pos: true, ndang: 2, all_perms: true, idsets: vec![0, 1, 2], starts: vec![1, 2], rots: vec![0], trailers: vec![0], bms: vec![0] },
+            SubB { n: 3, two_pos: true, ndang: 2, all_perms: true, idsets: vec![0, 1, 2], starts: vec![1, 2, 7], rots: vec![0], trailers: vec![0], bms: vec![0, 1] },
             SubB { n: 4, two_pos: false, ndang: 2, all_perms: true, idsets: vec![0, 1, 2], starts: vec![1, 2, 7], rots: vec![0], trailers: vec![0, 3], bms: vec![0, 1] },
         ]
     } else {
@@ -666,7 +666,8 @@ fn run_block(b: &Block, templates: &[Template], subs: &[SubB], ext_subs: &[SubB]
                 for bm in 0..tp.bookmark_sets.len() {
                     let c = instantiate(tp, bm, &ids, &dang, *start, tag);
                     eval(&c, &mut rep);
-                    if *idset == 1 && bm == 1 && *start == 2 && perm.first() == Some(&(n - 1)) && perm.last() == Some(&0) && perm.windows(2).all(|w| w[0] > w[1]) { rep.sample(format!("{}: {}", tp.label, describe(&c))); }
+                    // samples: the reversed id assignment on the sparse id set, one bookmark per page, start 2
+                    if *idset == 1 && bm == 1 && *start == 2 && perm.iter().rev().copied().eq(0..n) { rep.sample(format!("{}: {}", tp.label, describe(&c))); }
                 }
             }
         }
